@@ -44,7 +44,7 @@ func main() {
 	pcfg := &packages.Config{
 		Mode: packages.NeedName | packages.NeedFiles | packages.NeedCompiledGoFiles | packages.NeedSyntax | packages.NeedTypes | packages.NeedTypesInfo | packages.NeedImports | packages.NeedDeps,
 		Dir:  cfg.Dir,
-		Env:  append(os.Environ(), "GOFLAGS=-mod=mod", "GOPROXY=off", "GOSUMDB=off", "GOTOOLCHAIN=local"),
+		Env:  goEnv(),
 	}
 	pkgs, err := packages.Load(pcfg, ".")
 	if err != nil || len(pkgs) == 0 {
@@ -131,4 +131,12 @@ func main() {
 	b, _ := json.Marshal(result)
 	fmt.Println(string(b))
 	_ = token.NoPos
+}
+
+func goEnv() []string {
+	env := os.Environ()
+	if os.Getenv("GOFLAGS") == "" {
+		env = append(env, "GOFLAGS=-mod=mod")
+	}
+	return append(env, "GOPROXY=off", "GOSUMDB=off", "GOTOOLCHAIN=local")
 }
